@@ -1075,7 +1075,7 @@ def extract_comments(source):
         >>> assert comments == ['# comment 1', '# comment 2']
     """
     if isinstance(source, str):
-        lines = source.splitlines()
+        lines = utils.util_str.split_lf_lines(source)
     else:
         lines = source
 
